@@ -148,7 +148,7 @@ func c03GenTx(r *rng, st *stats, o genOpts, risky string) GTx {
 			}
 		}
 		if r.chance(15) {
-			p.Comment = pick(r, []string{"a note", "trip:rome", "k:v, other:thing", "ünï note"})
+			p.Comment = pick(r, []string{"a note", "trip:rome", "k:v, other:thing", "ünï note", "note:see id:7, id:9", "ünï note, trip:rome"})
 		}
 		t.Postings = append(t.Postings, p)
 	}
